@@ -262,7 +262,7 @@ def unnestSvg (svgUid : Nat) (pw ph : Float) : (fuel : Nat) → DocM (List Node)
   let gu ← freshUid
   -- g.extend(svg): the children move out of the tree into the new, still detached group
   setRoot (Node.updateUid root svgUid (fun n => n.setChildren []))
-  let t0 ← if !(viewport == viewbox) then
+  let t0 ← if (svg.getAttr "viewBox").isSome then
       liftE (rectToRectStr viewbox viewport ((svg.getAttr "preserveAspectRatio").getD "xMidYMid"))
     else pure ((Aff.id : Aff Float).translate x y)
   let t ← match svg.getAttr "transform" with
